@@ -270,6 +270,23 @@ func suiteArith(o *Out, thorough bool, seed int64) {
 		}
 	}
 	emitEval(o, "0.1 + 0.2 === 0.3", 0, "-", "-", true)
+	// exact ties at 34 digits (half-even), also after round()/roundBank() were evaluated in this process
+	ties := func(tag string) {
+		for i := 0; i < 40; i++ {
+			c := randCoef(r, 34)
+			for _, t := range []string{c + " + 0.5", c + " - 0.5", "(-" + c + ") + 0.5", c + "1 * 0.5", c + "3 * 0.5", c + "1 / 2", c + "5 / 10", c + "5e-1 + 0", c + "5 * 1"} {
+				emitEval(o, t, 0, "-", "-", true)
+			}
+		}
+		o.Stat("ties-" + tag)
+	}
+	ties("fresh")
+	emitEval(o, "round(2.5) + round(-2.5) + round(0.5)", 0, "-", "-", true)
+	ties("after-round")
+	emitEval(o, "roundBank(2.5) + roundBank(3.5)", 0, "-", "-", true)
+	ties("after-roundBank")
+	emitEval(o, "ceil(1.2) + floor(1.2) + abs(-1) + sqrt(4)", 0, "-", "-", true)
+	ties("after-context64-builtins")
 }
 
 // literal for |n| (a negative literal would be a prefix minus; the tests compare with the right sign below)
@@ -433,11 +450,13 @@ func snapshotOracle(o *Out, line, text, hosts, data string) {
 func suiteLocals(o *Out, thorough bool, seed int64) {
 	hosts := "1:0:0:2:0:a,a:" + ws("r") + ";2:0:1:2:0:a:Ii:7"
 	shared := "A3 Ii:1 Ii:2 " + wmap("q", "Ii:5")
-	datas := []string{"-", "O0", wmap("x", "Ii:3", "y", shared, "z", shared, "f", "H1", "g", "H2", "$b", "Ii:9", "n", "N")}
+	datas := []string{"-", "O0", wmap("x", "Ii:3", "y", shared, "z", shared, "f", "H1", "g", "H2", "$b", "Ii:9", "n", "N", "p", "D+:125:-1", "q", "D-:3:0")}
 	fixed := []string{"a = 1", "1 = 2", "($a) = 1", "a.b = 1", "'s' = 1", "$a.b = 1", "x = 1", "[$a] = 1", "$a = $b = 2", "$a = 1, $a", "$a = 1, $a = $a + 1, $a",
 		"[$a = 1, $a + 1, $a = 5, $a]", "f($a = 2, $a)", "$c", "$a, $a = 1", "($a = 1) + ($a = 2) + $a", "$a = x, x", "g($a = 1, $a = 2, $a)",
 		"true ? $a = 1 : $b = 2", "$a = [1,2], $a", "$a = y, $a", "$b", "$b = $b + 1", "this.$b", "$a = null, $a", "x = ($a = 1)", "$a = (1, 2)", "$a = 1 ? 2 : 3",
-		"y", "z", "f(y, z)", "$a = y, $b = z, [$a, $b]"}
+		"y", "z", "f(y, z)", "$a = y, $b = z, [$a, $b]",
+		"$a = 5, $b = -$a, $a", "$a = 1, -$a, $a", "[$a = 2, -$a, +$a, ~$a, !$a, $a]", "-p, p", "$n = -p, p * 2", "-q, q", "abs(q), q", "$a = p, -$a, [p, $a]",
+		"$a = 2.5, round($a), $a", "round(p), p", "ceil(p), floor(p), p", "$a = 3, $a + 1, $a * 2, -$a, $a", "f(-p, p)", "toString(-p) + toString(p)", "max(p, q), min(p, q), [p, q]"}
 	for _, d := range datas {
 		for _, t := range fixed {
 			line := fmt.Sprintf("EV\t%s\t0\t%s\t%s", hx([]byte(t)), hosts, d)
@@ -805,11 +824,15 @@ func suiteBridge(o *Out, thorough bool, seed int64) {
 func suiteNames(o *Out, thorough bool, seed int64) {
 	inner := wmap("k", "Ii:1", "z", "Ii:0", "s", ws("str"), "n", "N", "p", "P", "b", "F", "deep", wmap("k", "Ii64:-5", "f", "G"+hx([]byte("2.5")), "u", "Iu8:3"))
 	data := wmap("a", inner, "b", wmap("a", inner), "n", "N", "p", "P", "len", "Ii:99", "max", ws("shadow"), "num", "Ii32:7", "str", ws("x"),
-		"t", "M0:0", "arr", "A1 Ii:1", "i8", "Ii8:5", "f", "G"+hx([]byte("0.25")), "tr", "T")
+		"t", "M0:0", "arr", "A1 Ii:1", "i8", "Ii8:5", "f", "G"+hx([]byte("0.25")), "tr", "T",
+		"pi", "G"+hx([]byte("3.141592653589793")), "amt", "G"+hx([]byte("1234567.891")), "big", "G"+hx([]byte("16777217")), "i64", "Ii64:9007199254740993", "neg", "Ii32:-2147483648", "tiny", "G"+hx([]byte("0.000001234567891")))
 	keys := []string{"a", "b", "k", "z", "n", "p", "deep", "missing", "len", "s"}
 	seps := []string{".", "!."}
 	// every path of depth 0..3 over the key universe with . / !. at each position (roots: data names and this)
 	roots := []string{"a", "b", "n", "p", "len", "max", "num", "str", "missing", "this", "arr", "i8", "f", "tr"}
+	for _, t := range []string{"pi", "amt", "big", "i64", "neg", "tiny", "this.pi", "this.amt", "amt == 1234567.891", "big - 16777216", "pi * 2", "i64 - 9007199254740992", "[pi, amt, big]", "tiny * 1e6"} {
+		emitEval(o, t, 0, "-", data, true)
+	}
 	depth := 2
 	if thorough {
 		depth = 3
@@ -960,20 +983,60 @@ func escapeText(r *rand.Rand, text []byte, q byte) string {
 func suiteStrings(o *Out, thorough bool, seed int64) {
 	r := newRand(seed, "strings")
 	syms := [][]byte{[]byte("a"), []byte("'"), []byte("\""), []byte("\\"), []byte("\n"), []byte("\r"), []byte("\t"), {0}, {8}, {11}, {12}, {0x7f},
-		[]byte("é"), []byte("ÿ"), []byte("\u0085"), []byte("\u2028"), []byte("\u2029"), []byte("€"), []byte("😀"), {0xff}, {0xc3}, {0xe2, 0x82}, {0x80}, []byte("0"), []byte("x"), []byte("u"), []byte("f")}
+		[]byte("é"), []byte("ÿ"), []byte("\u0085"), []byte("\u2028"), []byte("\u2029"), []byte("€"), []byte("😀"), {0xff}, {0xc3}, {0xe2, 0x82}, {0x80}, []byte("0"), []byte("x"), []byte("u"), []byte("f"), []byte("7"), []byte("1"), []byte("9")}
+	checkLit := func(lit string, text []byte) {
+		line := fmt.Sprintf("EV\t%s\t0\t-\t-", hx([]byte(lit)))
+		obs := emitEval(o, lit, 0, "-", "-", len(text) >= 2)
+		want := "V S" + hx(text)
+		if got := strings.SplitN(obs, "|", 2)[0]; got != want {
+			o.Fail(line, fmt.Sprintf("string literal does not round-trip: %q evaluates to %s, required %s", lit, got, want))
+		}
+	}
 	check := func(text []byte) {
 		for _, q := range []byte{'\'', '"'} {
 			for v := 0; v < 2; v++ {
-				lit := string(q) + escapeText(r, text, q) + string(q)
-				line := fmt.Sprintf("EV\t%s\t0\t-\t-", hx([]byte(lit)))
-				obs := emitEval(o, lit, 0, "-", "-", len(text) >= 2)
-				want := "V S" + hx(text)
-				if got := strings.SplitN(obs, "|", 2)[0]; got != want {
-					o.Fail(line, fmt.Sprintf("string literal does not round-trip: %q evaluates to %s, required %s", lit, got, want))
+				checkLit(string(q)+escapeText(r, text, q)+string(q), text)
+			}
+		}
+	}
+	// every choice of escape form for every symbol, texts of up to 2 symbols
+	var forms func(sym []byte, q byte) []string
+	forms = func(sym []byte, q byte) []string {
+		c, size := decodeRuneGo(sym)
+		valid := !(c == 0xFFFD && size == 1) && size == len(sym)
+		must := c == rune(q) || c == '\\' || c == '\n' || c == '\r' || c == 0x2028 || c == 0x2029 || c == 0x85
+		var out []string
+		if !must || !valid {
+			out = append(out, string(sym))
+		}
+		if !valid {
+			return out
+		}
+		simple := map[rune]string{'\'': `\'`, '"': `\"`, '\\': `\\`, '\n': `\n`, '\r': `\r`, '\t': `\t`, '\b': `\b`, '\f': `\f`, '\v': `\v`, 0: `\0`}
+		if s, ok := simple[c]; ok {
+			out = append(out, s)
+		}
+		if c < 256 {
+			out = append(out, fmt.Sprintf(`\x%02x`, c), fmt.Sprintf(`\x%02X`, c))
+		}
+		if c < 65536 {
+			out = append(out, fmt.Sprintf(`\u%04x`, c))
+		}
+		return out
+	}
+	for _, q := range []byte{'\'', '"'} {
+		for _, a := range syms {
+			for _, fa := range forms(a, q) {
+				checkLit(string(q)+fa+string(q), a)
+				for _, b := range syms {
+					for _, fb := range forms(b, q) {
+						checkLit(string(q)+fa+fb+string(q), append(append([]byte{}, a...), b...))
+					}
 				}
 			}
 		}
 	}
+	o.Notes = append(o.Notes, "exhaustive: every text of up to 2 symbols x every combination of the admissible escape forms of each symbol x both quotes")
 	k := 2
 	if thorough {
 		k = 3
